@@ -22,3 +22,8 @@ Require Import SP.Model.Calendar.
 Definition mk_resource_cal (tbl : option (list (Z * list ((Z * Z) * (Z * Z))))) (off : list (Z * Z))
            (start g : Z) (upper : nat) (lims : list nat) : resource :=
   mk_resource (work_table tbl off start g upper) lims.          (* the table is an argument: computed once *)
+
+(* limits of the second-granularity model: the same regenerated period index *)
+Require Import SP.Model.SubSlot.
+Definition mk_slimit (value : nat) (start g period : Z) (only : option nat) : slimit :=
+  {| sl_value := value; sl_period := fun s => Limit_idx_to_sb_idx start g period (Z.of_nat s); sl_only := only |}.
